@@ -10,6 +10,7 @@ import (
 	"fmt"
 	"reflect"
 	"runtime"
+	"sort"
 	"strconv"
 	"strings"
 	"unsafe"
@@ -109,10 +110,19 @@ func (g *gen) Value(t reflect.Type, depth int) reflect.Value {
 			v.Set(reflect.ValueOf("any" + strconv.Itoa(g.next())))
 			break
 		}
+		found := false
 		for _, c := range g.candidates() {
 			if c.Type().Implements(t) {
 				v.Set(c)
+				found = true
 				break
+			}
+		}
+		if !found {
+			// an interface of the corpus itself (a method that returns its own
+			// interface): a fresh, unconfigured mock of it is a distinguishable value
+			if c, ok := registryCandidate(t); ok {
+				v.Set(c)
 			}
 		}
 	case reflect.Struct:
@@ -236,4 +246,29 @@ func goid() int64 {
 		return id
 	}
 	return -1
+}
+
+var regCand = map[reflect.Type]string{}
+
+// registryCandidate: a new instance of some registered mock type that implements t.
+func registryCandidate(t reflect.Type) (reflect.Value, bool) {
+	name, ok := regCand[t]
+	if !ok {
+		names := make([]string, 0, len(registry))
+		for n := range registry {
+			names = append(names, n)
+		}
+		sort.Strings(names)
+		for _, n := range names {
+			if reflect.TypeOf(registry[n].New()).Implements(t) {
+				name = n
+				break
+			}
+		}
+		regCand[t] = name
+	}
+	if name == "" {
+		return reflect.Value{}, false
+	}
+	return reflect.ValueOf(registry[name].New()), true
 }
